@@ -518,6 +518,11 @@ func (bc *BlockChain) insert(block *types.Block) {
 
 	// If the block is better than our head or is on a different chain, force update heads
 	if updateHeads {
+		// Headers may have been imported ahead of blocks on the branch that is
+		// being left: no height above the new head may keep mapping to them.
+		for i := block.NumberU64() + 1; GetCanonicalHash(bc.db, i) != (common.Hash{}); i++ {
+			DeleteCanonicalHash(bc.db, i)
+		}
 		bc.hc.SetCurrentHeader(block.Header())
 
 		if err := WriteHeadFastBlockHash(bc.db, block.Hash()); err != nil {
